@@ -1,10 +1,11 @@
 #!/bin/bash
-# tools/seedtest.sh <PROP> [tier]: take /tmp/seed-<PROP>/DELIVERY, store it under seeded/<PROP>/, apply the
-# patch to a scratch worktree of /repo HEAD and run the property's check against it.
+# tools/seedtest.sh <PROP> [tier] [nseeds] [round]: take /tmp/seed<round>-<PROP>/DELIVERY, store it under
+# seeded/<PROP>[-<round>]/, apply the patch to a scratch worktree of /repo HEAD and run the property's check
+# against it (round is empty for the first seed of a property, 2 for the second, …).
 set -u
-P=$1; TIER=${2:-quick}; N=${3:-1}
-D=/tmp/seed-$P/DELIVERY
-SEED=/verif/seeded/$P
+P=$1; TIER=${2:-quick}; N=${3:-1}; R=${4:-}
+D=/tmp/seed$R-$P/DELIVERY
+SEED=/verif/seeded/$P${R:+-$R}
 if [ -d "$D" ]; then
   mkdir -p $SEED
   cp -r $D/patch.diff $D/meta.json $SEED/ 2>/dev/null
